@@ -57,11 +57,11 @@ GROUP = {
         final(price_repos).cache_consistent(),
         final(price_repos).inner == old(price_repos).inner,
         // C10: every holding is converted exactly once (amounts already in the target commodity untouched, others value x rate) and summed ...
-        all_convertible(old(price_repos), amount.iter_listing(), amount.iter_listing().len() as int, commodity_with, date) ==>
+        all_convertible(&old(price_repos).inner, amount.iter_listing(), amount.iter_listing().len() as int, commodity_with, date) ==>
             (r matches Ok(x) && x@ == (if amount.iter_listing().len() == 0 { Map::<Commodity, real>::empty() }
-                else { Map::<Commodity, real>::empty().insert(commodity_with, conv_sum(old(price_repos), amount.iter_listing(), amount.iter_listing().len() as int, commodity_with, date)) })),   // @convert_amount.sum_of_every_holding_converted_exactly_once
+                else { Map::<Commodity, real>::empty().insert(commodity_with, conv_sum(&old(price_repos).inner, amount.iter_listing(), amount.iter_listing().len() as int, commodity_with, date)) })),   // @convert_amount.sum_of_every_holding_converted_exactly_once
         // ... or the conversion fails: nothing is dropped or left unconverted
-        !all_convertible(old(price_repos), amount.iter_listing(), amount.iter_listing().len() as int, commodity_with, date) ==> r is Err,   // @convert_amount.missing_rate_fails
+        !all_convertible(&old(price_repos).inner, amount.iter_listing(), amount.iter_listing().len() as int, commodity_with, date) ==> r is Err,   // @convert_amount.missing_rate_fails
 """,
           loops={0: """
         invariant
@@ -69,14 +69,14 @@ GROUP = {
             items__@ == amount.iter_listing(),
             price_repos.cache_consistent(),
             price_repos.inner == old(price_repos).inner,
-            all_convertible(old(price_repos), items__@, i__ as int, commodity_with, date),
+            all_convertible(&old(price_repos).inner, items__@, i__ as int, commodity_with, date),
             result@ == (if i__ == 0 { Map::<Commodity, real>::empty() }
-                else { Map::<Commodity, real>::empty().insert(commodity_with, conv_sum(old(price_repos), items__@, i__ as int, commodity_with, date)) }),
+                else { Map::<Commodity, real>::empty().insert(commodity_with, conv_sum(&old(price_repos).inner, items__@, i__ as int, commodity_with, date)) }),
         decreases items__@.len() - i__,
 """},
           loop_body_end={0: """        proof {
             reveal_with_fuel(conv_sum, 2);
-            assert(result@ =~= Map::<Commodity, real>::empty().insert(commodity_with, conv_sum(old(price_repos), items__@, i__ as int, commodity_with, date)));
+            assert(result@ =~= Map::<Commodity, real>::empty().insert(commodity_with, conv_sum(&old(price_repos).inner, items__@, i__ as int, commodity_with, date)));
         }"""}),
     ],
 }
